@@ -85,6 +85,12 @@ def inDomain : TraitType → Val → Bool
     match w with
     | .tuple _ ws => inDomainL items ws
     | _ => false
+  -- ValidatedTuple: "a tuple with customized validation … fvalidate … should return True"
+  | .validatedTuple items fv, w =>
+    match w with
+    | .tuple _ ws =>
+      inDomainL items ws && (match fv with | none => true | some f => (match E.pred f w with | .ok b => b | .error _ => false))
+    | _ => false
   | .tupleAny, w => Val.isInst .tuple w
   -- Instance: "an instance of a class or its subclasses", allow_none, adapt
   | .instance cls an mode dflt, w =>
@@ -179,6 +185,11 @@ def Conv : TraitType → Val → Val → Prop
     | .tuple _ vs, .tuple _ ws => ConvL items vs ws
     | _, _ => False
   | .baseTuple items, v, w =>
+    match v, w with
+    | .tuple _ vs, .tuple _ ws => ConvL items vs ws
+    | .list vs, .tuple _ ws => ConvL items vs ws
+    | _, _ => False
+  | .validatedTuple items _, v, w =>
     match v, w with
     | .tuple _ vs, .tuple _ ws => ConvL items vs ws
     | .list vs, .tuple _ ws => ConvL items vs ws
